@@ -2,6 +2,8 @@
 // from a foreign helper thread after a seeded delay, or from another task; every suspension must continue exactly once and
 // the enclosing wait must not return before.   input: seed P ntasks mode(0 mixed,1 in-callback,2 foreign,3 task,4 foreign after 1-40 ms) nested(0/1)
 #include "common.h"
+#include <unistd.h>
+#include <cstring>
 #include <algorithm>
 #include <functional>
 #include <random>
@@ -139,7 +141,28 @@ static void cancelled_rounds(unsigned seed, int P, int rounds, Out& o) {
     o.word("NOTONCE"); o.put(notonce); o.word("TWICE"); o.put(0); o.word("EARLYWAIT"); o.put(early); o.word("TWOTHREADS"); o.put(0);
 }
 
+// diagnostics: a crash prints the faulting thread's backtrace (on an alternate stack: the fault may be on a small coroutine stack)
+#include <execinfo.h>
+#include <signal.h>
+static void segv_handler(int sig, siginfo_t* si, void*) {
+    void* bt[40]; int n = backtrace(bt, 40);
+    char msg[128]; int len = snprintf(msg, sizeof msg, "\nSIGNAL %d at address %p, backtrace:\n", sig, si ? si->si_addr : nullptr); ssize_t w = write(2, msg, (size_t)len); (void)w;
+    backtrace_symbols_fd(bt, n, 2);
+    // classify (the driver is linked with -rdynamic): a fault inside the destructor of a task_group function_task = the task releases a wait-tree reference vertex that is gone
+    const char* kind = "other";
+    char** sym = backtrace_symbols(bt, n);
+    // the function_task of a local lambda has no dynamic symbol: recognise the shape "unnamed driver frames (task destructor <- task execute) directly beneath local_wait_for_all<coroutine_waiter>"
+    if (sym) for (int i = 2; i < n && i < 6; ++i) if (strstr(sym[i], "local_wait_for_all") && strstr(sym[i], "coroutine_waiter") && strstr(sym[i - 1], "(+0x")) kind = "taskdtor";
+    len = snprintf(msg, sizeof msg, "CRASHKIND %s\n", kind); w = write(2, msg, (size_t)len); (void)w;
+    _exit(139);
+}
+static void install_segv_handler() {
+    static char altstack[1 << 16]; stack_t ss; ss.ss_sp = altstack; ss.ss_size = sizeof altstack; ss.ss_flags = 0; sigaltstack(&ss, nullptr);
+    struct sigaction sa; memset(&sa, 0, sizeof sa); sa.sa_sigaction = segv_handler; sa.sa_flags = SA_SIGINFO | SA_ONSTACK; sigaction(SIGSEGV, &sa, nullptr); sigaction(SIGBUS, &sa, nullptr);
+}
+
 int main() {
+    install_segv_handler();
     std::vector<i128> c; Out o; Watchdog wd(30.0);
     while (read_case(c)) {
         unsigned seed = (unsigned)c[0]; int P = (int)c[1]; int n = (int)c[2]; int mode = (int)c[3]; bool nested = c[4] != 0;
